@@ -66,7 +66,7 @@ def run_history(sc, phase="full"):
                         hp.Float("late_alpha", 0.0, 1.0)
                 try:
                     if x < 0.7:
-                        o.update_trial(t.trial_id, {"score": float(60 * rng.randint(-5, 5))}, step=0); t.status = "COMPLETED"
+                        o.update_trial(t.trial_id, {"score": float(60 * rng.randint(*((-1, 1) if cfg["kind"] == "hyperband" else (-5, 5))))}, step=0); t.status = "COMPLETED"
                     elif x < 0.9:
                         t.status = "INVALID"
                     else:
@@ -104,7 +104,7 @@ def run_hb_grow(sc):
         def finish(t):
             if t.hyperparameters.values.get("b"):
                 t.hyperparameters.Int("h", 0, 1000)
-            o.update_trial(t.trial_id, {"score": float(rng.randint(0, 50))}); t.status = "COMPLETED"; o.end_trial(t)
+            o.update_trial(t.trial_id, {"score": float(rng.randint(0, sc.get("score_max", 50)))}); t.status = "COMPLETED"; o.end_trial(t)
         for _ in range(sc["waves"]):
             ts = []
             for i in range(sc["W"]):
